@@ -12,6 +12,13 @@ def run(tier, only=None):
     conds = [Cond("harness.h_c19", fn, t) for fn in ("h_ds_text", "h_ds_keywords", "h_ds_parts", "h_entity", "h_description")]
     for k, nm in enumerate(("creator", "contact", "associatedParty", "metadataProvider", "personnel")):
         conds.append(Cond("harness.h_c19", "h_party", t, part=k + 1, label="h_party[%s]" % nm))
+    from harness.h_c19 import TNAMES
+    roots = [0, 2, 8, 5, 10] if tier == "quick" else range(len(TNAMES))
+    for k in roots:
+        for nest in (0, 1):
+            for txt in ((0,) if tier == "quick" else (0, 1)):
+                conds.append(Cond("harness.h_c19", "h_total", t, part=10 + k * 4 + nest * 2 + txt,
+                                  label="h_total[root %s, %s%s]" % (TNAMES[k], "chain" if nest else "two children", ", root text" if txt else "")))
     if only:
         conds = [c for c in conds if only in c.label]
     rep.bounds = {"dataset_text": "title of 3..6 words; abstract absent / own text / text spread over para and section/para / para with only an inline child; 18..21 words",
@@ -19,6 +26,7 @@ def run(tier, only=None):
                   "party": "creator/contact/associatedParty/metadataProvider/personnel; two userId slots each {absent, ORCID+content, other directory+content, ORCID without content, "
                            "content without directory}; e-mail absent/present/empty; individualName absent/complete/surName only/givenName only/empty surName",
                   "entity": "dataTable/otherEntity with description, size, checksum, record count absent/empty/filled; record delimiter absent/filled/empty/no textFormat",
+                  "totality": "3-node trees (root pinned per process, two more nodes in both arrangements) over 14 evaluator-relevant element names with content None / '' / text: no exception, well-formed warnings",
                   "description": "description under each listed parent, an unlisted parent, or parentless; empty / own text / para / section-para / markdown"}
     rep.extra["rule"] = "one CrossHair condition per evaluator group; non-trivial = confirmed over all paths"
     rep.assumptions = ["words = whitespace-separated tokens; texts are single-space separated (word-splitting subtleties are C20's subject)",
